@@ -1,7 +1,7 @@
 (* Props/C06.v -- property C06: "Schema defaults are reproduced exactly, or rejected when
    the schema is added".  Only the property theorems; models in Algo/Defaults.v and
    Algo/Value.v (mirroring /repo AFTER the fix: commits 9891d21, dc9ac49, 9117497, cd15928,
-   07af100, 31ec69c), proofs in Proofs/DefaultsProofs.v.
+   07af100, 31ec69c, 15ce314), proofs in Proofs/DefaultsProofs.v.
 
    Outcomes of the models: ROk = Ok/Some, RErr = Err(InvalidValue)/None, RPanic = a Rust
    panic (unwrap of a missing id, unreachable!()), RFuel = the MODEL ran out of fuel.
@@ -65,13 +65,12 @@ Theorem C06_default_typed_partial : forall re T g f t d k,
   exists e, output_value T f t d = ROk e /\ expr_typed T g e t = true.
 Proof. exact frag_typed. Qed.
 
-(* the full C06_default_typed (every kind) is still REFUTED on the repaired tree: a valid default that selects
-   an enum variant with a ONE-element tuple payload renders `E::V(3_i64)` for `V((i64,))` (finding C06-F13;
-   value.rs value_for_{external,adjacent,untagged}_enum vs type_entry.rs output_variant) *)
-Theorem C06_default_typed_tuple1_variant_refuted :
-  exists T f t d k e, validate_value re0 T f t d = ROk k /\ output_value T f t d = ROk e /\
-                      expr_typed T f e t = false /\ expr_any (is_tuple1_variant T) e = true.
-Proof. exact default_typed_tuple1_variant_refuted. Qed.
+(* ex C06_default_typed_tuple1_variant_refuted (finding C06-F13, fixed by 15ce314): the former witness is now
+   rendered `E::V((3_i64,))`, typed at `V((i64,))`, and denotes the schema default *)
+Theorem C06_tuple1_variant_example :
+  exists e, output_value Tw 3 12 (JObj [(u "V", JArr [JInt 3])]) = ROk e /\ expr_typed Tw 3 e 12 = true /\
+            eval_expr Tw e = Some (JObj [(u "V", JArr [JInt 3])]).
+Proof. exact tuple1_variant_example. Qed.
 
 (* (4) C06_default_exact on the scalar kinds: the rendered expression denotes a value that
    serialises to the schema default.  PARTIAL: composite kinds by the per-run model-vs-serde agreement. *)
